@@ -486,6 +486,13 @@ class NetCDFWrite(IOWrite):
             )
             sample_ncdim = g["sample_ncdim"].get(compressed_ncdims)
 
+            if sample_ncdim is None and compression_type != "gathered":
+                # The count or index variable of this DSG ragged array
+                # is not in the file (e.g. because the field's data
+                # are no longer compressed), so the construct has to
+                # be written uncompressed.
+                return tuple(ncdims)
+
             if compression_type == "gathered":
                 # ----------------------------------------------------
                 # Compression by gathering
